@@ -441,6 +441,17 @@ func runC05(r *Report) {
 	c05R6(r)
 	c05R7(r)
 	c05R8(r)
+	// "allocates in proportion to the message": the decoder's frame arithmetic and allocation bounds (C04.R2/R3/R5)
+	// are the first line of that clause, before any handler runs
+	if read := r.P.Func("protocol", "Read"); read != nil {
+		if L := frameLength(read); L != nil {
+			sub := r.sub("R9")
+			scope := localCallees(r.P, read, []string{"protocol", "pex"})
+			c04R5(sub, read, L)
+			c04R2(sub, scope)
+			c04R3(sub, read, scope, L)
+		}
+	}
 }
 
 // R8 (from a round-2 seeded change): "at worst disconnects that one peer". Torrent.run ends as soon as
